@@ -125,7 +125,7 @@ def _campaign(mod, args, seed, runner, findings, evidence):
         return 2
 
     # A time limit hit while 16 shards (and whatever else) shared the machine is not yet a hang: the case is run again,
-    # alone, with a five times longer limit.  If it finishes, the campaign is inconclusive for that case, not violated.
+    # alone, with a three times longer limit.  If it finishes, the campaign is inconclusive for that case, not violated.
     slow = []
     if "hang" in tot.viols:
         still = []
@@ -218,12 +218,12 @@ def _rerun_alone(mod, case, runner):
         p = os.path.join(d, "case.json")
         with open(p, "w") as f:
             json.dump({"property": mod.ID, "case": case}, f, default=str)
-        env = dict(os.environ, VF_CASE_TIMEOUT=str(runner.CASE_TIMEOUT_S * 5), VF_NO_REEXEC_NOTE="1")
+        env = dict(os.environ, VF_CASE_TIMEOUT=str(runner.CASE_TIMEOUT_S * 3), VF_NO_REEXEC_NOTE="1")
         try:
             r = subprocess.run([sys.executable, "-m", "vf.cli", mod.ID, "--replay", p, "--raw"], capture_output=True, text=True,
-                               env=env, cwd=common.VERIF, timeout=runner.CASE_TIMEOUT_S * 5 + 120)
+                               env=env, cwd=common.VERIF, timeout=runner.CASE_TIMEOUT_S * 3 + 120)
         except subprocess.TimeoutExpired:
-            return {"st": "viol", "sig": "hang", "detail": "case did not finish within %d s when run alone" % (runner.CASE_TIMEOUT_S * 5)}
+            return {"st": "viol", "sig": "hang", "detail": "case did not finish within %d s when run alone" % (runner.CASE_TIMEOUT_S * 3)}
         for line in r.stdout.splitlines():
             if line.startswith("OUTCOME "):
                 return json.loads(line[8:])
